@@ -205,7 +205,8 @@ def wrapSeq (m : Mode) : Val → Option (List Val)
 
 /-- `transform_dataclass` (cls.py:616-630): a non-empty list / tuple given where a data class is expected stands
 for its first item unless `no_explicit_cast` (more than one item is a data loss: TypeError before any context
-is made).  `none` = that TypeError. -/
+is made; since ea05768 the unwrapping sits in a guard that turns any exception — also of an ill-behaved sequence
+subclass, which the fragment does not contain — into a ParseError).  `none` = that error. -/
 def unwrapData (m : Mode) : Val → Option Val
   | .list (w :: ws) => if m.noCast then some (.list (w :: ws)) else if m.noLoss && !ws.isEmpty then none else some w
   | v => some v
@@ -245,8 +246,9 @@ def inCtx {β} (e : Out Ctx) (p : Ctx → Out β × Nat) : Out β × Nat :=
 
 abbrev Parser := Ctx → Ty → Val → Out Res × Nat
 
-/-- items of a sequence / variable-length tuple: rule.py:1954-1955
-`for i, item in enumerate(value): with context.enter(route=i)` -/
+/-- items of a sequence / variable-length tuple: `_parse_seq_args`
+`for i, item in enumerate(items): with context.enter(route=i)` (the items are read once through `Rule._read_items`;
+for lists and tuples that is the list of their items) -/
 def parseItems (Q : Quirks) (rec : Parser) (c : Ctx) (t : Ty) (vs : List Val) : Out (List Res) × Nat :=
   seqM (fun (iv : Nat × Val) => inCtx (enter Q c (iv.1 == 0) c.mode) fun c' => rec c' t iv.2) (indexed 0 vs)
 
